@@ -176,6 +176,9 @@ class Env:
             body["_additionalProperties"] = src["addProps"]
         if src.get("ignoreNone"):
             body["_ignore_none"] = True
+        opt = [f["name"] for f in src["fields"] if f.get("opt")]
+        if opt:
+            body["_optional"] = opt
         if p is None:
             bases = (Structure, FastSerializable) if src.get("fast") else (Structure,)
             cls = type(src["name"], bases, body)
@@ -234,6 +237,17 @@ class Env:
     def valid_kwargs(self, c, which=0, depth=0):
         return {f["name"]: self.valid_value(f, which, depth) for f in self.flat_fields(c)}
 
+    def required_kwargs(self, c):
+        """the minimal instance: only the fields that are neither optional nor defaulted, and every
+        Array-of-classes field empty"""
+        return {f["name"]: ([] if f["kind"].get("arr") and "ref" in f["kind"] else self.valid_value(f))
+                for f in self.flat_fields(c) if not f.get("opt") and not f.get("default")}
+
+    def op_instance(self, c, op):
+        if op.get("probe") == "required":
+            return self.classes[c](**self.required_kwargs(c))
+        return self.instance(c)
+
     def instance(self, c, depth=0):
         if depth > 4:
             raise ValueError("too deep")
@@ -265,6 +279,8 @@ class Env:
             base = self.valid_kwargs(c)
             out.append(("valid0", base))
             out.append(("valid1", self.valid_kwargs(c, 1)))
+            if any(f.get("opt") or (f["kind"].get("arr") and "ref" in f["kind"]) for f in fields):
+                out.append(("required-only", self.required_kwargs(c)))
         except Exception as e:      # a referenced class cannot be instantiated
             return [("novalid:" + err_name(e), None)]
         for f in fields:
@@ -290,16 +306,17 @@ class Env:
         res = {"done": True}
         try:
             if kind == "construct":
-                cls(**({} if op.get("probe") == "empty" else self.valid_kwargs(c)))
+                cls(**({} if op.get("probe") == "empty" else self.required_kwargs(c)
+                       if op.get("probe") == "required" else self.valid_kwargs(c)))
             elif kind == "serialize":
-                doc = serialize(self.instance(c), camel_case_convert=bool(op.get("camel")))
+                doc = serialize(self.op_instance(c, op), camel_case_convert=bool(op.get("camel")))
                 from typedpy.structures import TypedPyDefaults
                 if isinstance(doc, dict) and not TypedPyDefaults.compact_serialization_default:
                     res["keys"] = sorted(doc)
             elif kind == "deserialize":
                 camel = bool(op.get("camel"))
                 Deserializer(cls, camel_case_convert=camel).deserialize(
-                    serialize(self.instance(c), camel_case_convert=camel))
+                    serialize(self.op_instance(c, op), camel_case_convert=camel))
             elif kind == "trusted":
                 Deserializer(cls).deserialize(serialize(self.instance(c)), direct_trusted_mapping=True)
             elif kind == "toSchema":
@@ -312,7 +329,8 @@ class Env:
                     res["required"] = sorted(cls._required)
                     res["wrote"] = res["required"] != before
             elif kind == "createSerializer":
-                create_serializer(cls)
+                flags = {k: bool(v) for k, v in (op.get("flags") or {}).items()}
+                create_serializer(cls, **flags)
         except Exception as e:
             res["err"] = err_name(e)
         return res
